@@ -211,7 +211,7 @@ def _conservation(case, F, stats):
     V = []
     recs = case.recs
     meta = case.sc.meta.get("conserve", {})      # ufd idx -> owner slot (generator's promise: registered before loop, never deregistered)
-    if not meta and not case.sc.meta.get("hup"):
+    if not meta and not case.sc.meta.get("hup") and not case.sc.meta.get("oneshot_fd"):
         return V
     w = {}
     ev = {}
@@ -241,6 +241,15 @@ def _conservation(case, F, stats):
             stats["hangup_fds"] = stats.get("hangup_fds", 0) + 1
         if n_e < n_w:
             V.append(("C03/event-lost", "descriptor %d of module %d: %d tokens were written before its peer closed, the handler received only %d events (a readable descriptor reporting hang-up is still readable)" % (u, owner, n_w, n_e)))
+    for u, owner in case.sc.meta.get("oneshot_fd", {}).items():
+        if owner in st_bad or not w.get(u, 0):
+            continue
+        n_e = ev.get((owner, u), 0)
+        if stats is not None:
+            stats["oneshot_fds_judged"] = stats.get("oneshot_fds_judged", 0) + 1
+        if n_e != 1:
+            V.append(("C03/event-lost" if n_e < 1 else "C03/oneshot-fired-twice",
+                      "one-shot descriptor %d of module %d became readable while the module was RUNNING and the loop ran on for several batches: %d events delivered, expected exactly 1" % (u, owner, n_e)))
     for u, owner in meta.items():
         if owner in st_bad:
             continue
